@@ -78,7 +78,7 @@ where
         // do not answer on broadcast
         if header.destination != FrameDestination::Broadcast {
             let bytes = self.writer.format_ex(header, func, ex, self.decode)?;
-            io.write(bytes, self.decode.physical).await?;
+            write_reply(io, bytes, &mut self.commands, &mut self.decode).await?;
         }
         Ok(())
     }
@@ -247,7 +247,7 @@ where
                     &mut self.writer,
                     self.decode,
                 )?;
-                io.write(reply, self.decode.physical).await?;
+                write_reply(io, reply, &mut self.commands, &mut self.decode).await?;
             }
             FrameDestination::Broadcast => match request.into_broadcast_request() {
                 None => {
@@ -262,6 +262,32 @@ where
         }
 
         Ok(())
+    }
+}
+
+/// Write a reply unless the session is told to end first.
+///
+/// A peer that does not read its replies eventually blocks the write; the session must still end
+/// when its command channel is closed (eviction, server task gone) or `Shutdown` is received.
+/// Decode level changes received in the meantime are applied.
+async fn write_reply(
+    io: &mut PhysLayer,
+    bytes: &[u8],
+    commands: &mut tokio::sync::mpsc::Receiver<ServerCommand>,
+    decode: &mut DecodeLevel,
+) -> Result<(), RequestError> {
+    let level = decode.physical;
+    let end = async {
+        loop {
+            match commands.recv().await {
+                None | Some(ServerCommand::Shutdown) => return,
+                Some(ServerCommand::ChangeDecoding(x)) => *decode = x,
+            }
+        }
+    };
+    tokio::select! {
+        res = io.write(bytes, level) => Ok(res?),
+        _ = end => Err(RequestError::Shutdown),
     }
 }
 
